@@ -115,9 +115,12 @@ def markers_of(items, acc=None):
 
 
 FUNC_NAMES = ["foo", "Foo", "foo.bar", "bar", "a.b", "A.B", "a", "b", "x_1", "a.b.c", "K.m", "k.M", "minecraft.f", "mypack.foo",
-              "tick", "q"]
+              "tick", "q", "minecraft.util.clear", "shared.util.clear", "shared.a.b.c", "shared.go"]
+EMPTY_PREFIXES = ["", "", "a.", "K.", "minecraft.", "minecraft.util.", "shared.deep.er."]
+BODY_STYLES = ["empty", "empty", "comment", "nested"]
+DECOS = [None, None, "@private", "@root", "@add(?)"]
 ODD_FUNC_NAMES = ["__load__", "__private__", "__private__.x", "a..b", ".a", "a.", "__tick__", "this.z"]
-CLASS_NAMES = ["a", "A", "K", "k", "a.b", "foo", "minecraft", "__private__", "mypack"]
+CLASS_NAMES = ["a", "A", "K", "k", "a.b", "foo", "minecraft", "__private__", "mypack", "shared", "shared.util", "util"]
 JSON_TYPES = ["advancements", "advancement", "predicate", "predicates", "@LOC", "loot_table", "loot_tables", "tags.functions", "tag.functions",
               "tags.blocks", "recipes", "item_modifier", "item_modifiers", "bogus", "Predicate"]
 JSON_NAMES = ["foo", "bar", "a.b", "x_1", "minecraft.x", "mypack.foo", "__private__.player_first_join", "__private__.trigger_setup.enable",
@@ -125,8 +128,8 @@ JSON_NAMES = ["foo", "bar", "a.b", "x_1", "minecraft.x", "mypack.foo", "__privat
 
 
 class TreeGen:
-    def __init__(self, rng):
-        self.rng, self.mk = rng, 0
+    def __init__(self, rng, decorated=False):
+        self.rng, self.mk, self.decorated = rng, 0, decorated
 
     def next_mk(self):
         self.mk += 1
@@ -137,7 +140,7 @@ class TreeGen:
         x = r.random()
         if ctx == "func":
             if x < 0.6:
-                return self.func(depth)
+                return self.func(depth, nested=True)
             return self.new()
         if x < 0.42:
             return self.func(depth)
@@ -149,13 +152,28 @@ class TreeGen:
             return ("genpriv", r.choice(list(GEN_PRIV)), self.next_mk())
         return ("genjson", r.choice(["foo", "bar", "x_1", "a/b", "q"]), self.next_mk())
 
-    def func(self, depth):
+    def func(self, depth, nested=False):
         r = self.rng
         name = r.choice(ODD_FUNC_NAMES) if r.random() < 0.04 else r.choice(FUNC_NAMES)
         inner = []
         if depth > 0 and r.random() < 0.3:
             inner = [self.item(depth - 1, "func") for _ in range(r.randint(1, 2))]
-        return ("func", name, self.next_mk(), inner)
+        mk = self.next_mk()
+        if not self.decorated:
+            return ("func", name, mk, inner)
+        x = r.random()
+        if x < 0.16:
+            # a saved function whose body compiles to zero commands; recognised by its unique file name
+            style = r.choice(BODY_STYLES)
+            if style == "nested":
+                inner = inner or [("func", r.choice(["inner", "foo", "q"]), self.next_mk(), [])]
+            else:
+                inner = []
+            # (a decorated function declared inside a function body is parsed without the class prefix, like `new`: outside the model)
+            return ("func", r.choice(EMPTY_PREFIXES) + f"E{mk}", mk, inner, [], dict(body=style, deco=None if nested else r.choice(DECOS)))
+        if x < 0.30 and not nested:
+            return ("func", name, mk, inner, [], dict(body="marker", deco=r.choice(DECOS[2:])))
+        return ("func", name, mk, inner)
 
     def new(self):
         r = self.rng
@@ -185,36 +203,42 @@ def py_path(name):
 PLAIN = re.compile(r"^[A-Za-z0-9_]+(\.[A-Za-z0-9_]+)*$")
 
 
-def add_calls(rng, prog, n=3):
+def add_calls(rng, prog, n=3, forms=False, with_ok=False):
     """Add call sites to function bodies: absolute calls to top-level functions / class members and
     `this.` calls between members of the same class.  Returns the new tree."""
     targets = []      # (call spelling from anywhere, documented path)
     def collect(items, classes):
         for it in items:
-            if it[0] == "func" and PLAIN.match(it[1]) and not it[1].startswith("this."):
+            if it[0] == "func" and PLAIN.match(it[1]) and not it[1].startswith("this.") and func_opts(it).get("deco") != "@private":
                 spell = ".".join(classes + [it[1]])
                 targets.append((spell, py_path(spell)))
             elif it[0] == "class" and PLAIN.match(it[1]):
                 collect(it[2], classes + [it[1]])
     collect(prog, [])
-    if not targets:
-        return prog
+    add_targets = [t[0] for t in targets if not t[0].split(".")[-1].startswith("E")] + ["__load__", "__tick__"]
+
+    def form(spelling):
+        return spelling if not forms or rng.random() < 0.4 else (rng.choice(["call", "sched", "exec"] + (["with"] if with_ok else [])), spelling)
 
     def walk(items, classes, members):
         out = []
         for it in items:
             if it[0] == "func":
                 calls = []
-                if rng.random() < 0.5:
+                opts = dict(func_opts(it))
+                if opts.get("deco") == "@add(?)":
+                    opts["deco"] = f"@add({rng.choice(add_targets)})"
+                if targets and rng.random() < 0.5 and opts.get("body", "marker") == "marker":
                     for _ in range(rng.randint(1, n)):
                         if members and rng.random() < 0.5:
-                            calls.append("this." + rng.choice(members))
+                            calls.append(form("this." + rng.choice(members)))
                         else:
-                            calls.append(rng.choice(targets)[0])
-                out.append(("func", it[1], it[2], walk(it[3], classes, members), calls))
+                            calls.append(form(rng.choice(targets)[0]))
+                out.append(("func", it[1], it[2], walk(it[3], classes, members), calls) + ((opts,) if opts else ()))
             elif it[0] == "class":
                 ok = bool(PLAIN.match(it[1])) and all(PLAIN.match(c) for c in classes)
-                mem = [m[1] for m in it[2] if m[0] == "func" and PLAIN.match(m[1]) and not m[1].startswith("this.")] if ok else []
+                mem = [m[1] for m in it[2] if m[0] == "func" and PLAIN.match(m[1]) and not m[1].startswith("this.")
+                       and func_opts(m).get("deco") != "@private"] if ok else []
                 out.append(("class", it[1], walk(it[2], classes + [it[1]], mem)))
             else:
                 out.append(it)
@@ -239,6 +263,7 @@ def expected_calls(prog, cfg):
                 if calls:
                     lines = []
                     for c in calls:
+                        c = c if isinstance(c, str) else c[1]
                         if c.startswith("this."):
                             lines.append("function " + loc(py_path(".".join(classes + [c[5:]]))))
                         else:
@@ -290,10 +315,89 @@ def call_site_failures(prog, cfg, res):
             if path.endswith(".mcfunction") and mark(mk) in content:
                 all_lines = content.split("\n")
                 at = next((k for k, l in enumerate(all_lines) if mark(mk) in l), 0)
-                got = [l for l in all_lines[at:] if l.startswith("function ")][:len(lines)]
+                # every call form prints `function <location>` somewhere in its line (schedule function X 5t, execute ... run
+                # function X, function X with {...})
+                got = ["function " + m.group(1) for l in all_lines[at + 1:] for m in [re.search(r"(?:^| )function (\S+)", l)] if m][:len(lines)]
                 if got != lines:
                     out.append(dict(caller=mark(mk), file=path, expected=lines, actual=got))
     return out
+
+
+def uses_with(items) -> bool:
+    for it in items:
+        if it[0] == "func":
+            if any(not isinstance(c, str) and c[0] == "with" for c in (it[4] if len(it) > 4 else [])) or uses_with(it[3]):
+                return True
+        elif it[0] == "class" and uses_with(it[2]):
+            return True
+    return False
+
+
+def documented_functions(prog):
+    """[(marker, documented path, opts)] of the function definitions with plain names (independent of the Coq model)"""
+    out = []
+
+    def walk(items, classes):
+        for it in items:
+            if it[0] == "func":
+                if PLAIN.match(it[1]) and all(PLAIN.match(c) for c in classes) and not it[1].startswith("this."):
+                    out.append((it[2], py_path(".".join(classes + [it[1]])), func_opts(it)))
+                walk(it[3], classes)
+            elif it[0] == "class":
+                walk(it[2], classes + [it[1]])
+    walk(prog, [])
+    return out
+
+
+def reference_failures(prog, cfg, res):
+    """(round 2) plain-Python oracle on an accepted compile: every `function <ns>:<path>` printed anywhere names an emitted file;
+    every @add-decorated function is called from its target (or load / tick); two definitions with the same documented path are
+    never both accepted."""
+    fails = []
+    if not res["ok"]:
+        return fails
+    files = res["files"]
+    ff = "functions" if float(cfg["pack_format"]) < 48 else "function"
+    own = [cfg["ns"]] + list(cfg["overrides"])
+
+    def loc(path):
+        first = path.split("/")[0]
+        if first in cfg["overrides"] and "/" in path:
+            return f"{first}:{path[len(first) + 1:]}"
+        return f"{cfg['ns']}:{path}"
+
+    def file_of(location):
+        n, pth = location.split(":", 1)
+        return f"VIRTUAL/data/{n}/{ff}/{pth}.mcfunction"
+    for path, content in files.items():
+        if not path.endswith(".mcfunction"):
+            continue
+        for line in content.split("\n"):
+            for m in re.finditer(r"(?:^| )function (\S+)", line):
+                ref = m.group(1)
+                if ref.startswith("#") or "$(" in ref or ":" not in ref or ref.split(":", 1)[0] not in own:
+                    continue
+                if file_of(ref) not in files:
+                    fails.append(dict(kind="dangling-call", file=path, line=line[:200], missing=file_of(ref)))
+    docs = documented_functions(prog)
+    if cfg["ns"] not in cfg["overrides"]:
+        seen = {}
+        for mk, pth, _ in docs:
+            if pth in seen:
+                fails.append(dict(kind="equal-paths-both-accepted", path=pth, markers=[mark(seen[pth]), mark(mk)]))
+            seen[pth] = mk
+    for mk, pth, opts in docs:
+        deco = opts.get("deco") or ""
+        m = re.fullmatch(r"@add\((.*)\)", deco)
+        if not m or not PLAIN.match(m.group(1).replace("__", "x")):
+            continue
+        target = m.group(1)
+        tfile = file_of(loc(py_path(target))) if target not in ("__load__", "__tick__") else file_of(f"{cfg['ns']}:{target}")
+        want = "function " + loc(pth)
+        if want not in (files.get(tfile) or "").split("\n"):
+            fails.append(dict(kind="add-call-missing", decorated=pth, target_file=tfile, expected_line=want,
+                              actual=(files.get(tfile) or "<no such file>")[:300]))
+    return fails
 
 
 def F(name, mk, inner=()):
@@ -306,6 +410,16 @@ def C(name, *members):
 
 def N(t, name, mk):
     return ("new", t, name, mk)
+
+
+def E(name, mk, body="empty", deco=None, inner=()):
+    """a saved function whose body compiles to zero commands (round 2)"""
+    return ("func", name, mk, list(inner), [], dict(body=body, deco=deco))
+
+
+def D(name, mk, deco):
+    """a decorated function with an ordinary body"""
+    return ("func", name, mk, [], [], dict(body="marker", deco=deco))
 
 
 # pairs of spellings that land (or could land) on the same path
@@ -364,6 +478,32 @@ COLLIDING = [
                     ("func", "other.fn", 4, [], ["Kit.Sub.go", "minecraft.f"]), F("minecraft.f", 5)]),
     ("calls-nested-function", [C("Kit", ("func", "outer", 1, [("func", "inner", 2, [], ["this.outer", "this.inner"])], ["this.inner"]))]),
     ("func-vs-json-same-name", [F("foo", 1), N("predicate", "foo", 2), N("advancements", "foo", 3)]),
+    # ---- round 2: saved functions whose body compiles to zero commands, in every definition form and under every saved decorator
+    ("empty-plain", [E("E1", 1), E("a.E2", 2, body="comment"), C("K", E("E3", 3), E("E4", 4, body="comment")), F("t", 5)]),
+    ("empty-nested-only", [E("E1", 1, body="nested", inner=[F("inner", 2)]), C("K", E("E3", 3, body="nested", inner=[F("inner", 4), N("predicate", "pp", 5)]))]),
+    ("empty-decorated", [F("t", 1), E("E2", 2, deco="@add(t)"), E("E3", 3, deco="@private"), E("E4", 4, deco="@root"),
+                         C("K", E("E5", 5, deco="@add(t)", body="comment"), E("E6", 6, deco="@add(__tick__)"), E("E7", 7, deco="@private"),
+                           E("E8", 8, deco="@root", body="nested", inner=[F("inner", 9)]), E("E10", 10, deco="@add(__load__)"))]),
+    ("empty-decorated-before-target", [E("E1", 1, deco="@add(later.t)"), C("later", F("t", 2))]),
+    ("decorated-marker", [F("t", 1), D("d2", 2, "@add(t)"), D("d3", 3, "@private"), D("d4", 4, "@root"), C("K", D("d5", 5, "@add(K.d6)"), D("d6", 6, "@root"))]),
+    ("empty-then-same", [E("foo", 1), F("foo", 2)]),
+    ("same-then-empty", [F("foo", 1), E("foo", 2)]),
+    ("empty-twice", [E("foo", 1), E("foo", 2, body="comment")]),
+    ("empty-decorated-then-same", [F("t", 1), E("foo", 2, deco="@add(t)"), F("foo", 3)]),
+    ("empty-private-then-same", [C("K", E("foo", 1, deco="@private"), F("foo", 2))]),
+    ("empty-root-then-same-case", [E("Foo", 1, deco="@root"), F("foo", 2)]),
+    ("empty-decorated-twice", [F("t", 1), E("foo", 2, deco="@add(t)"), E("foo", 3, deco="@add(t)")]),
+    ("empty-nested-then-same", [E("foo", 1, body="nested", inner=[F("in1", 2)]), F("foo", 3)]),
+    ("empty-class-vs-dotted", [C("a", E("b", 1, deco="@root")), F("a.b", 2)]),
+    # ---- round 2: call sites into an #override namespace two or more levels deep, every call form
+    ("override-deep-calls", [C("shared", C("util", ("func", "clear", 1, [], ["this.done", ("sched", "this.done"), ("exec", "this.clear")]), F("done", 2)),
+                               ("func", "top", 3, [], ["this.util.clear", ("exec", "shared.util.done")])),
+                             F("shared.util.wipe", 4), F("shared.a.b.c.d", 5),
+                             ("func", "main", 6, [], ["shared.util.clear", ("sched", "shared.util.wipe"), ("exec", "shared.util.done"),
+                                                      ("call", "shared.a.b.c.d"), ("sched", "shared.top"), "minecraft.util.clear"]),
+                             F("minecraft.util.clear", 7), D("hook", 8, "@add(shared.util.clear)"), E("shared.x.y.E9", 9, deco="@add(shared.a.b.c.d)")]),
+    ("override-deep-with", [F("shared.util.clear", 1), C("shared", C("k", ("func", "m", 2, [], [("with", "this.m"), ("with", "shared.util.clear")]))),
+                            ("func", "main", 3, [], [("with", "shared.util.clear"), ("with", "shared.k.m")])]),
 ]
 
 CONFIGS = [
@@ -371,6 +511,7 @@ CONFIGS = [
     dict(ns="mypack", pack_format=61, overrides=["minecraft"]),
     dict(ns="mypack", pack_format=15, overrides=["minecraft", "mypack"]),
     dict(ns="TEST", pack_format=48, overrides=[]),
+    dict(ns="mypack", pack_format=48, overrides=["shared", "minecraft"]),      # (round 2) override namespaces entered >= 2 levels deep
 ]
 
 
@@ -484,7 +625,10 @@ def main(tier: str) -> int:
         "on every run; tied to the repo by comparing verdict (exception class) and the file of every marker on generated definition sets",
         "which of the four repairs (fixes/C07-reject-empty-path-segment.patch, fixes/C08-duplicate-definitions.patch) the tree contains is "
         "detected by four witness programs; the model is run with the matching flags, a pinned (defective) behaviour is reported as a finding",
-        "outside the model: decorated functions (@lazy/@if produce no file; @add/@private/@root are placed like plain functions), imports, "
+        "outside the model: @lazy/@if (no file); @add/@private/@root at top level and in classes are placed like plain functions (checked: the "
+        "model is given the undecorated item) but a decorated function declared INSIDE a function body is parsed without the class prefix and is "
+        "not generated; the zero-command bodies and call forms of round 2 are judged by plain-Python oracles (file exists, references resolve, "
+        "@add call present, equal paths rejected) in addition to the model's placement; imports, "
         "Hardcode.repeat-generated definitions, jmc.txt names other than the defaults, non-ASCII names",
         "marker counting on the real output is the direct oracle (search); it is plain Python",
     ]
@@ -502,6 +646,8 @@ def main(tier: str) -> int:
     cases = []
     for name, prog in COLLIDING:
         for cfg in CONFIGS:
+            if uses_with(prog) and float(cfg["pack_format"]) < 16:
+                continue                      # `f() with {...}` needs macros (pack format >= 16)
             cases.append(dict(origin=f"table:{name}", prog=resolve(prog, cfg), cfg=cfg))
     sweep = list(consts["types"]) + [t[:-1] for t in consts["legacy"]] + ["tag/functions", "tag/blocks", "tags/functions", "tags/items", "nope"]
     for ti, t in enumerate(dict.fromkeys(sweep)):
@@ -511,6 +657,13 @@ def main(tier: str) -> int:
     n_rand = 260 if tier == "quick" else 3000
     for i in range(n_rand):
         cases.append(dict(origin=f"random:{i}", prog=add_calls(rng, resolve(tg.program(), CONFIGS[i % len(CONFIGS)])), cfg=CONFIGS[i % len(CONFIGS)]))
+    # (round 2) trees with zero-command bodies, saved decorators, deep override names and every call form
+    tg2 = TreeGen(rng, decorated=True)
+    n_rand2 = 240 if tier == "quick" else 2400
+    for i in range(n_rand2):
+        cfg = CONFIGS[(i + 1) % len(CONFIGS)] if i % 3 else CONFIGS[-1]
+        cases.append(dict(origin=f"random-decorated:{i}", cfg=cfg,
+                          prog=add_calls(rng, resolve(tg2.program(), cfg), forms=True, with_ok=float(cfg["pack_format"]) >= 16)))
     for c in cases:
         c["job"] = job_of(c["prog"], c["cfg"])
     results = compile_batch([c["job"] for c in cases], chunk=60)
@@ -569,6 +722,10 @@ def main(tier: str) -> int:
             n_calls += len(expected_calls(c["prog"], c["cfg"])) if r["ok"] else 0
             if cs:
                 fail = dict(kind="call-site-misdirected", sites=cs[:3])
+        if fail is None:
+            rf = reference_failures(c["prog"], c["cfg"], r)
+            if rf:
+                fail = dict(kind=rf[0]["kind"], failures=rf[:3])
         if fail:
             c["fail"] = fail
             failing.append((i, c))
@@ -589,7 +746,9 @@ def main(tier: str) -> int:
                           pack_format=c["cfg"]["pack_format"], origin=c["origin"], candidate_finding=fid,
                           finding_text=FINDINGS[cls][1] if cls else None,
                           model_agrees_with_real=codes.get(i) == 0, job=c["job"], prog=c["prog"],
-                          expected="compilation fails with a diagnostic, or every definition's marker occurs exactly once, in the file documented for its name",
+                          expected="compilation fails with a diagnostic, or every definition's marker (file name for a zero-command body) occurs exactly once, "
+                                   "in the file documented for its name; every call site (plain, this., schedule, execute run, with, @add-generated) prints "
+                                   "the documented location and names an emitted file; equal documented paths are never both accepted",
                           actual=fail))
     # ---- correspondence
     mism = [i for i, cd in codes.items() if cd]
@@ -619,7 +778,11 @@ def main(tier: str) -> int:
         evaluations=len(cases), distinct_nontrivial=len({json.dumps([c["prog"], c["cfg"]], sort_keys=True) for c in cases
                                                          if size(c["prog"]) >= 2}),
         rule="a case = one definition tree x configuration (namespace, pack format, #override set); non-trivial = at least two definitions",
-        programs=len(cases), table_cases=len(COLLIDING) * len(CONFIGS), random_cases=n_rand, type_sweep_cases=len(set(sweep)),
+        programs=len(cases), table_cases=sum(1 for c in cases if c["origin"].startswith("table:")), random_cases=n_rand,
+        random_decorated_cases=n_rand2, type_sweep_cases=len(set(sweep)),
+        zero_command_definitions=sum(1 for c in cases for _, _, o in documented_functions(c["prog"]) if o.get("body", "marker") != "marker"),
+        decorated_definitions=sum(1 for c in cases for _, _, o in documented_functions(c["prog"]) if o.get("deco")),
+        call_forms={f: sum(1 for c in cases if f'"{f}"' in json.dumps(c["prog"])) for f in ("sched", "exec", "with")},
         real_verdicts=verdicts, disagreements_checked=len(mism), failing_inputs=n_fail, model_loses=len(model_loses),
         repairs_detected=flags, functions_with_checked_call_sites=n_calls,
         samples=[dict(origin=c["origin"], program=c["job"]["src"][:300], verdict=c["res"].get("exc") or "ok") for c in cases[200:203]],
@@ -647,7 +810,13 @@ def replay(path: str) -> int:
         cnt.setdefault(mk, []).append(p)
     print("actual: marker -> files:", {mark(int(k)): v for k, v in cnt.items()})
     bad = [mk for mk in markers_of(_tuplify(prog)) if len(cnt.get(mk, [])) != 1] if prog else []
-    return 1 if bad else 0
+    more = []
+    if prog:
+        cfg = dict(ns=rep.get("namespace", "TEST"), pack_format=rep.get("pack_format", -1),
+                   overrides=re.findall(r"#override[ \t]+(\S+)", rep.get("header") or ""))
+        more = call_site_failures(_tuplify(prog), cfg, r) + reference_failures(_tuplify(prog), cfg, r)
+        print("actual: call sites / references:", json.dumps(more[:4], indent=1) if more else "all resolve to the documented files")
+    return 1 if bad or more else 0
 
 
 def _tuplify(items):
@@ -656,6 +825,8 @@ def _tuplify(items):
         it = list(it)
         if it[0] == "func":
             it[3] = _tuplify(it[3])
+            if len(it) > 4:
+                it[4] = [c if isinstance(c, str) else tuple(c) for c in it[4]]
         elif it[0] == "class":
             it[2] = _tuplify(it[2])
         out.append(tuple(it))
